@@ -3,14 +3,16 @@
 # None may produce a refuted / failed obligation (= false alarm); "out_of_subset"/"unknown" (undecided) is tolerated and listed.
 cd "$(dirname "$0")/.." || exit 3
 declare -A FN=( [01]=space_utils.intersect [02]=space_utils.is_subspace [03]=percolate_space_strict [04]=function_eval [05]=restrict_petrinet [06]=extract_source_variables [07]=_create_clingo_constraints [08]=_create_clingo_fixed_point [09]=reduced_STG_async [10]=SuccessionDiagram._ensure_node [11]=_update_node_depth [12]=SuccessionDiagram.node_successors [13]=find_node [14]=expand_dfs [15]=find_drivers [16]=make_heuristic_retained_set )
+declare -A FN2=( [01]=SuccessionDiagram.__init__ [02]=SuccessionDiagram.__setstate__ [03]=SuccessionDiagram.is_subgraph [04]=reclaim_node_data [05]=node_percolated_nfvs [06]=node_percolated_petri_net [07]=edge_all_stable_motifs [08]=skip_to_minimal [09]=node_attractor_seeds [10]=SuccessionDiagram._expand_one_node [11]=expand_bfs [12]=expand_to_target [13]=compute_attractor_candidates [14]=asp_greedy [15]=symbolic_attractor_test [16]=trappist_async [17]=compute_fixed_point_reduced_STG [18]=succession_control )
 bad=0
-for f in seeded/benign/*.diff; do
+for f in seeded/benign/*.diff seeded/benign2/*.diff; do
   n=$(basename "$f" | cut -c1-2)
-  out=$(tools/with_patch.sh "$f" python3-vt -m pyvc.run --only "${FN[$n]}" 2>&1 | grep -v "    cover\|    vacuous")
+  case "$f" in seeded/benign2/*) only="${FN2[$n]}";; *) only="${FN[$n]}";; esac
+  out=$(tools/with_patch.sh "$f" python3-vt -m pyvc.run --only "$only" 2>&1 | grep -v "    cover\|    vacuous")
   line=$(echo "$out" | grep "^biobalm" | tail -1)
   if echo "$out" | grep -q "^    \(failed\|refuted\)"; then verdict="FALSE-ALARM"; bad=1
   elif echo "$line" | grep -q "out_of_subset\|unknown\|crash"; then verdict="undecided"
   else verdict="verified"; fi
-  echo "$(basename "$f"): $verdict   $line"
+  echo "$f: $verdict   $line"
 done
 exit $bad
